@@ -26,6 +26,7 @@ RULE = (
     "semantics: identical data, error paths a sub-multiset of the injected failures, every visible nulled position explained, "
     "message/locations/extensions well-formed and inside the failing field's text. Distinct = SHA-1 of (carrier, fault set); "
     "non-trivial = the nulled position differs from the fault site (a non-null layer was crossed) or the site is a list item."
+    " A tenth of the cases plant the failures inside the events of a subscription (C14's machinery): each event's response accounts for its own failures only."
 )
 ASSUMPTIONS = c01.ASSUMPTIONS + ["faults are injected only at harness-resolved fields (all fields in C02 carriers)"]
 DOC_OPTS = {"max_nodes": 16, "max_frags": 3}
@@ -80,9 +81,11 @@ def fault_sites(schema, ex):
     sites = []
     n_user = [0]
 
-    def user_fault(duck=False):
+    def user_fault(duck=False, located=False):
         n_user[0] += 1
         payload = {"message": "user message %d" % n_user[0], "extensions": {"code": n_user[0], "tag": "x"}}
+        if located:
+            payload["located"] = True  # the resolver sets the error's `path` itself (to the right value)
         if duck:
             payload["duck"] = True  # raised as a self-rendering application error that is not a TartifletteError
         return Fault("raise_tartiflette", payload)
@@ -123,6 +126,7 @@ def fault_sites(schema, ex):
         sites.append(("raise", path, Fault("raise"), False))
         sites.append(("raise_tartiflette", path, user_fault(), False))
         sites.append(("raise_coercible", path, user_fault(duck=True), False))
+        sites.append(("raise_located", path, user_fault(located=True), False))
         sites.append(("return_exception", path, Fault("return_exception"), False))
         for lab, f in value_faults(schema, t):
             sites.append((lab, path, f, False))
@@ -249,7 +253,9 @@ def check_faulted(spec, h, printed=None):
     faults = [(tuple(k), fault_from_json(f)) for k, f in spec["faults"]]
     tree = Tree(schema, None, copy.deepcopy(spec["tree"]))
     install(tree, faults)
-    ex = Executor(schema, spec["doc"], RefProvider(tree))
+    plan = spec.get("plan") or {}
+    no_echo = () if plan.get("custom_default_resolver") else (plan.get("default_fields") or ())  # as c01.reference
+    ex = Executor(schema, spec["doc"], RefProvider(tree, no_echo=no_echo))
     op = ex.get_operation(spec["op"])
     root = schema["roots"][op["type"]]
     variables = effective_variables(spec)
@@ -274,7 +280,28 @@ def check_faulted(spec, h, printed=None):
     return nontrivial
 
 
+def sub_case(c, stats):
+    """contained failures inside subscription events (C14's machinery, plain consumption): what one event's execution
+    reports must not reach the response of another event"""
+    from tfv.impl import clean_registry
+    from tfv.props import c14
+
+    schema, plan = c01.build_schema(c, {"subscription": True, "max_objects": 3})
+    plan["default_fields"] = []
+    clean_registry()
+    h = c14.SubHarness(schema, plan, None)
+    run_async(h.build())
+    for _ in range(3):
+        spec = c14.build_request(c, schema, plan)
+        c14.run_pattern(c, h, schema, spec, "plain")
+        stats.case({"d": spec["doc"], "v": spec["variables"], "e": spec["events"], "f": spec["faults"], "s": schema["types"]}, len(spec["events"]) >= 2 and bool(spec["faults"]),
+                   ["subscription_events", "events:%d" % len(spec["events"]), "faults:%d" % len(spec["faults"])],
+                   {"query": print_document(spec["doc"]).text, "events": len(spec["events"]), "faults": spec["faults"]})
+
+
 def case(c, stats):
+    if c.maybe(10):
+        return sub_case(c, stats)
     schema, plan = c01.build_schema(c)
     plan["default_fields"] = []
     plan["custom_default_resolver"] = False
@@ -323,6 +350,10 @@ def run_worker(seed, tier, index, nworkers):
 
 
 def replay(spec):
+    if "events" in spec:
+        from tfv.props import c14
+
+        return c14.replay(spec)
     plan = spec["plan"]
     h = run_async(c01.make_harness(spec["schema"], plan, plan.get("engine_kwargs")))
     check_faulted(spec, h)
